@@ -104,7 +104,15 @@ LastW(inp, a, b) == MaxOf({NOTS} \cup {inp[j].ts : j \in {j \in a..b : inp[j].k 
 (* an iteration nothing more is emitted in exact mode and exactly the      *)
 (* oldest incomplete non-empty group in non-exact mode; groups never mix   *)
 (* keys or iterations and every aggregator is applied to exactly the       *)
-(* group's elements."      p = [n, s, exact]                               *)
+(* group's elements."      p = [n, s, exact] (+ agg, see AggOf)            *)
+(*  count_group_content   the r-th result before the end of the iteration  *)
+(*                        is not (the aggregate of) the group [rS, rS+N);  *)
+(*                        a group is missing; a result too many            *)
+(*  count_group_position  the r-th result does not come out at the step    *)
+(*                        that consumed the group's N-th element           *)
+(*  count_end_flush       what comes out at FlushAndRestart                *)
+(*  count_mixed_keys      a result holds an element of another key or      *)
+(*                        iteration                                        *)
 (***************************************************************************)
 (* what the aggregator of the window stream makes of a group (p.agg; absent = the collecting     *)
 (* fold of the harness): min / max are by the injective key (37 * id) % 101, as in harness-win    *)
